@@ -465,7 +465,9 @@ fn check_spec_parse(d: &[u8], obs: &Sub<ParseObs>, o: &mut Oracle) {
                 .all(|het| flute_get_ext(d, *het) == Sub::Ok(rd::find_ext(&f.exts, *het).map(|e| e.encode())));
             let stage = match flute_plct(d) {
                 Sub::Ok(l) if l == want_lct => {
-                    if walk_ok {
+                    if walk_ok && sp.p.cenc.map_or(false, |c| c > 3) && sp.p.fti.is_none() {
+                        "spec-parse-cenc".to_string()
+                    } else if walk_ok {
                         format!("spec-parse-fti-{}", fec)
                     } else {
                         "spec-parse-ext".to_string()
@@ -507,8 +509,10 @@ fn check_spec_parse(d: &[u8], obs: &Sub<ParseObs>, o: &mut Oracle) {
         );
     }
     if let Some(c) = sp.p.cenc {
-        if c <= 3 && po.cenc != Some(c) {
-            o.fail(&cls("spec-parse-cenc", h), &format!("EXT_CENC: flute {:?} / RFC {}", po.cenc, c));
+        // an unknown content encoding (4..255) is not an error of the packet: flute reports no cenc
+        let want = if c <= 3 { Some(c) } else { None };
+        if po.cenc != want {
+            o.fail(&cls("spec-parse-cenc", h), &format!("EXT_CENC: flute {:?} / RFC {} (expected {:?})", po.cenc, c, want));
         }
     } else if po.cenc.is_some() {
         o.fail(&cls("spec-parse-cenc", h), &format!("EXT_CENC: flute {:?} / RFC none", po.cenc));
@@ -713,6 +717,24 @@ impl WireEngine {
         // ---- input classification --------------------------------------------------------------
         let fec = a.oti.fec;
         let has_fti = a.toi == 0 || a.oti.inband;
+        // Builder preconditions (`debug_assert!` / `unwrap` / checked u32 add / shift by m >= 32) are outside C06's range
+        // and profile dependent: the compared token is `unspecified`, decided from the op arguments alone, whatever
+        // flute did above (the Lean driver prints the same token where the model's builder panics).  No oracle.
+        let ss_kind = a.oti.ss.map(|x| x.0);
+        let rs_m = match a.oti.ss {
+            Some((0, m, _, _)) => m,
+            _ => 8,
+        };
+        let unspecified = (a.toi == 0 && a.fdt_id.is_none())
+            || (has_fti
+                && ((fec == 2 && ss_kind != Some(0))
+                    || (fec == 6 && ss_kind != Some(1))
+                    || (fec == 1 && ss_kind != Some(2))
+                    || ([5u8, 129, 2].contains(&fec) && a.oti.parity as u64 + a.oti.b as u64 >= (1 << 32))))
+            || (fec == 2 && rs_m >= 32);
+        if unspecified {
+            return Some("unspecified".to_string());
+        }
         let fti_want = a.oti.fti_vec(a.tl);
         let ss_ok = fti_want.is_some();
         let fti_ok = fti_want.as_ref().map_or(false, |v| fti_fits(fec, v));
@@ -723,7 +745,7 @@ impl WireEngine {
         let sct_wrap = a.sct.map_or(false, |us| us / 1_000_000 + rd::NTP_UNIX_OFFSET > u32::MAX as u64);
         let base_ok = a.tsi < (1 << 48)
             && a.toi < (1u128 << 112)
-            && (a.toi != 0 || a.fdt_id.map_or(false, |i| i < (1 << 20)))
+            && (a.toi != 0 || a.fdt_id.is_some())
             && ss_ok
             && (a.oti.b as u64 + a.oti.parity as u64) <= u32::MAX as u64;
         let pid_m = pid_in_range(&a.oti, a.sbn, a.esi, a.sbl);
@@ -744,7 +766,8 @@ impl WireEngine {
 
         // ---- the bytes as an independent RFC receiver reads them -------------------------------
         let want_cenc = if (a.toi == 0 && a.cenc != 0) || a.inband_cenc { Some(a.cenc) } else { None };
-        let want_fdt = if a.toi == 0 { Some((if a.rfc3926 { 1u32 } else { 2u32 }, a.fdt_id.unwrap())) } else { None };
+        // the 20-bit FDT Instance ID field carries the id masked (push_fdt, any u32 id)
+        let want_fdt = if a.toi == 0 { Some((if a.rfc3926 { 1u32 } else { 2u32 }, a.fdt_id.unwrap() & 0xFFFFF)) } else { None };
         let want_pid: Pid = (a.sbn, a.esi, if fec == 129 { Some(a.sbl) } else { None });
         match rd::decode_packet(&d) {
             None => o.fail("C06:pkt-build-ne-rfc", "independent decoder rejects the LCT header"),
